@@ -184,72 +184,78 @@ def ivp_system(chk):
     xa, xb = z3.Reals("xa xb")
     y0s = z3.Reals("y00 y01 y02")
     Fx = z3.Function("rhs", z3.RealSort(), z3.RealSort())
-    for K in (1, 2, 3):
-        captured = {}
+    y0i = z3.Ints("y00i y01i y02i")
+    for ykind in ("real", "int"):       # initial values given as floats / as integers (np.array(y0) is then an integer array)
+      ys = list(y0s) if ykind == "real" else [z3.ToReal(v_) for v_ in y0i]
+      yarg = list(y0s) if ykind == "real" else list(y0i)
+      ksfx = "" if ykind == "real" else "/integer-y0"
+      for K in (1, 2, 3):
+          captured = {}
 
-        def solve_ivp(eng_, func, span, y0=None, **kw):
-            captured.update(func=func, span=span, y0=y0, kw=kw)
-            raise I.PathEnd("reached solve_ivp")
+          def solve_ivp(eng_, func, span, y0=None, **kw):
+              captured.update(func=func, span=span, y0=y0, kw=kw)
+              raise I.PathEnd("reached solve_ivp")
 
-        def lin_solve(eng_, A, b):
-            # assumed contract of scipy.linalg.solve: the returned w satisfies A w = b
-            n = A.shape[0]
-            ws = [z3.Real(f"w{k}") for k in range(n)]
-            for i in range(n):
-                eng_.assume(sum(T.zr(A.fn(i, j)) * ws[j] for j in range(n)) == T.zr(b.fn(i)))
-            captured["solve"] = (A, b, ws)
-            return I.Arr((n,), lambda i: M.select_const(i, [lambda v=v: v for v in ws]), "real")
+          def lin_solve(eng_, A, b):
+              # assumed contract of scipy.linalg.solve: the returned w satisfies A w = b
+              n = A.shape[0]
+              ws = [z3.Real(f"w{k}") for k in range(n)]
+              for i in range(n):
+                  eng_.assume(sum(T.zr(A.fn(i, j)) * ws[j] for j in range(n)) == T.zr(b.fn(i)))
+              # SciPy has computed its result when it returns: keep snapshots, not the argument objects (a view passed in is dead afterwards)
+              captured["solve"] = (I.Arr(A.shape, A.fn, A.dtype), I.Arr(b.shape, b.fn, b.dtype), ws)
+              return I.Arr((n,), lambda i: M.select_const(i, [lambda v=v: v for v in ws]), "real")
 
-        def thunk(eng_, K=K):
-            install(eng_)
-            eng_.externals["scipy.integrate.solve_ivp"] = solve_ivp
-            eng_.externals["scipy.linalg.solve"] = lin_solve
-            tf, ufs = abstract_transform(eng_)
-            eng_.assume(z3.And(tf.fields["_domain"][0] <= xa, xa <= xb, xb <= tf.fields["_domain"][1]))
-            fxm = I.Model("fx", lambda e, x: I.Arr(x.shape, lambda *i: Fx(T.zr(x.fn(*i))), "real"))
-            coeffs = [AS[k] for k in range(K + 1)]
-            try:
-                eng_.call(eng_.get_function(MOD, "solve_ode_ivp"), [(xa, xb), fxm, coeffs, list(y0s[:K]), tf])
-            except I.PathEnd:
-                pass
-            if "func" not in captured:
-                raise I.PathEnd("solve_ivp not reached")
-            # evaluate the captured right-hand side closure at a generic state
-            t = z3.Real("t")
-            yv = z3.Reals("s0 s1 s2")[:K]
-            yarr = I.Arr((K, 1), lambda k, i: M.select_const(k, [lambda v=v: v for v in yv]), "real")
-            out = eng_.call(captured["func"], [t, yarr])
-            return dict(out=[out.fn(k, 0) for k in range(K)], shape=out.shape, span=[captured["span"].fn(0), captured["span"].fn(1)],
-                        y0=[captured["y0"].fn(k) for k in range(K)], solve=captured.get("solve"), ufs=ufs, t=t, yv=yv, kw=captured["kw"])
-        for o in chk.explore(f"solve_ode_ivp/K={K}", thunk, func=fq):
-            if o.kind != "return":
-                continue
-            v = o.value
-            Tf, Ti, D1, D2, D3 = v["ufs"]
-            t, yv = v["t"], v["yv"]
-            rep = {"what": "ivp", "K": K}
-            xo = Ti(t)                       # original coordinate of the solver's variable
-            gs = [D1(xo), D2(xo), D3(xo)]
-            # expected transformed coefficients (proved above to be Faa di Bruno): b_j from the same real function evaluated at xo
-            bt = expected_b(K, gs)
-            rhs = (Fx(xo) - sum(bt[k] * yv[k] for k in range(K))) / bt[K]
-            hy = list(o.pc)
-            for k in range(K - 1):
-                chk.add(f"solve_ode_ivp/K={K}/post/system-row{k}-is-next-derivative", hy, T.zr(v["out"][k]) == yv[k + 1], func=fq, meta={"replay": rep})
-            chk.add_identity(f"solve_ode_ivp/K={K}/post/system-last-row-is-explicit-ode", T.zr(v["out"][K - 1]), rhs, hy + [bt[K] != 0], func=fq, side=False,
-                             meta={"replay": rep})
-            chk.add(f"solve_ode_ivp/K={K}/post/interval-is-image-of-x_span", hy, z3.And(T.zr(v["span"][0]) == Tf(xa), T.zr(v["span"][1]) == Tf(xb)), func=fq,
-                    meta={"replay": rep})
-            chk.add(f"solve_ode_ivp/K={K}/post/initial-value-kept", hy, T.zr(v["y0"][0]) == y0s[0], func=fq, meta={"replay": rep})
-            if K > 1:
-                # the initial derivatives handed to the solver, w = y0_new[1:], satisfy M(x_span[0]) w = y0[1:]  (Y-derivatives from y-derivatives)
-                g_at = [D1(xa), D2(xa), D3(xa)]
-                wv = [T.zr(v["y0"][j + 1]) for j in range(K - 1)]
-                for i in range(K - 1):
-                    want_row = sum(T.zr(bell_def(i + 1, j + 1, g_at)) * wv[j] for j in range(K - 1))
-                    chk.add(f"solve_ode_ivp/K={K}/post/initial-derivatives-row{i}", hy, want_row == y0s[i + 1], func=fq, meta={"replay": rep})
-            chk.add(f"solve_ode_ivp/K={K}/post/vectorized-dense-output-requested", [], z3.BoolVal(v["kw"].get("dense_output") is True and v["kw"].get("vectorized") is True),
-                    func=fq, meta={"replay": rep})
+          def thunk(eng_, K=K):
+              install(eng_)
+              eng_.externals["scipy.integrate.solve_ivp"] = solve_ivp
+              eng_.externals["scipy.linalg.solve"] = lin_solve
+              tf, ufs = abstract_transform(eng_)
+              eng_.assume(z3.And(tf.fields["_domain"][0] <= xa, xa <= xb, xb <= tf.fields["_domain"][1]))
+              fxm = I.Model("fx", lambda e, x: I.Arr(x.shape, lambda *i: Fx(T.zr(x.fn(*i))), "real"))
+              coeffs = [AS[k] for k in range(K + 1)]
+              try:
+                  eng_.call(eng_.get_function(MOD, "solve_ode_ivp"), [(xa, xb), fxm, coeffs, list(yarg[:K]), tf])
+              except I.PathEnd:
+                  pass
+              if "func" not in captured:
+                  raise I.PathEnd("solve_ivp not reached")
+              # evaluate the captured right-hand side closure at a generic state
+              t = z3.Real("t")
+              yv = z3.Reals("s0 s1 s2")[:K]
+              yarr = I.Arr((K, 1), lambda k, i: M.select_const(k, [lambda v=v: v for v in yv]), "real")
+              out = eng_.call(captured["func"], [t, yarr])
+              return dict(out=[out.fn(k, 0) for k in range(K)], shape=out.shape, span=[captured["span"].fn(0), captured["span"].fn(1)],
+                          y0=[captured["y0"].fn(k) for k in range(K)], solve=captured.get("solve"), ufs=ufs, t=t, yv=yv, kw=captured["kw"])
+          for o in chk.explore(f"solve_ode_ivp/K={K}{ksfx}", thunk, func=fq):
+              if o.kind != "return":
+                  continue
+              v = o.value
+              Tf, Ti, D1, D2, D3 = v["ufs"]
+              t, yv = v["t"], v["yv"]
+              rep = {"what": "ivp", "K": K}
+              xo = Ti(t)                       # original coordinate of the solver's variable
+              gs = [D1(xo), D2(xo), D3(xo)]
+              # expected transformed coefficients (proved above to be Faa di Bruno): b_j from the same real function evaluated at xo
+              bt = expected_b(K, gs)
+              rhs = (Fx(xo) - sum(bt[k] * yv[k] for k in range(K))) / bt[K]
+              hy = list(o.pc)
+              for k in range(K - 1):
+                  chk.add(f"solve_ode_ivp/K={K}{ksfx}/post/system-row{k}-is-next-derivative", hy, T.zr(v["out"][k]) == yv[k + 1], func=fq, meta={"replay": rep})
+              chk.add_identity(f"solve_ode_ivp/K={K}{ksfx}/post/system-last-row-is-explicit-ode", T.zr(v["out"][K - 1]), rhs, hy + [bt[K] != 0], func=fq, side=False,
+                               meta={"replay": rep})
+              chk.add(f"solve_ode_ivp/K={K}{ksfx}/post/interval-is-image-of-x_span", hy, z3.And(T.zr(v["span"][0]) == Tf(xa), T.zr(v["span"][1]) == Tf(xb)), func=fq,
+                      meta={"replay": rep})
+              chk.add(f"solve_ode_ivp/K={K}{ksfx}/post/initial-value-kept", hy, T.zr(v["y0"][0]) == ys[0], func=fq, meta={"replay": rep})
+              if K > 1:
+                  # the initial derivatives handed to the solver, w = y0_new[1:], satisfy M(x_span[0]) w = y0[1:]  (Y-derivatives from y-derivatives)
+                  g_at = [D1(xa), D2(xa), D3(xa)]
+                  wv = [T.zr(v["y0"][j + 1]) for j in range(K - 1)]
+                  for i in range(K - 1):
+                      want_row = sum(T.zr(bell_def(i + 1, j + 1, g_at)) * wv[j] for j in range(K - 1))
+                      chk.add(f"solve_ode_ivp/K={K}{ksfx}/post/initial-derivatives-row{i}", hy, want_row == ys[i + 1], func=fq, meta={"replay": rep})
+              chk.add(f"solve_ode_ivp/K={K}{ksfx}/post/vectorized-dense-output-requested", [], z3.BoolVal(v["kw"].get("dense_output") is True and v["kw"].get("vectorized") is True),
+                      func=fq, meta={"replay": rep})
     # order > 3 with a transform is rejected
     def t_high(eng_):
         install(eng_)
